@@ -356,7 +356,7 @@ def dropItems (gone : List String) (r : Rec) : Rec :=
 def rmIdx (st : St) (seed : List Nat) : St :=
   let dead := cascade st seed
   let gone := dead.filterMap (fun j => (st.lines[j]?).bind Rec.name)
-  let kept := (List.range st.lines.length).filterMap (fun i => if dead.contains i then none else st.lines[i]?)
+  let kept := (st.lines.zipIdx.filter (fun p => !dead.contains p.2)).map (·.1)
   { st with lines := kept.map (dropItems gone) }
 
 /-- `Gfa.rm(identifier)` -/
@@ -370,25 +370,28 @@ def renameOriented (a b : String) (s : String) : String :=
   let (n, o) := splitOriented s
   if n = a then b ++ orientStr o else s
 
+/-- apply `g` to the `i`-th element, if any -/
+def modAt (l : List String) (i : Nat) (g : String → String) : List String :=
+  match l, i with
+  | [], _ => []
+  | x :: xs, 0 => g x :: xs
+  | x :: xs, i + 1 => x :: modAt xs i g
+
 def renameIn (a b : String) (r : Rec) : Rec :=
-  let f := r.fields
   let sub (s : String) : String := if s = a then b else s
   match r.rt with
-  | .L | .C => { r with fields := (f.take 4).zipIdx.map (fun (s, i) => if i = 0 ∨ i = 2 then sub s else s) ++ f.drop 4 }
-  | .E | .G => { r with fields := (f.take 3).zipIdx.map (fun (s, i) => if i = 1 ∨ i = 2 then renameOriented a b s else s) ++ f.drop 3 }
-  | .F => { r with fields := (f.take 1).map sub ++ f.drop 1 }
-  | .P => { r with fields := (f.take 2).zipIdx.map (fun (s, i) =>
-      if i = 1 then ",".intercalate ((splitStr ',' s).map (renameOriented a b)) else s) ++ f.drop 2 }
-  | .O => { r with fields := (f.take 2).zipIdx.map (fun (s, i) =>
-      if i = 1 then " ".intercalate ((splitStr ' ' s).map (renameOriented a b)) else s) ++ f.drop 2 }
-  | .U => { r with fields := (f.take 2).zipIdx.map (fun (s, i) =>
-      if i = 1 then " ".intercalate ((splitStr ' ' s).map sub) else s) ++ f.drop 2 }
+  | .L | .C => { r with fields := modAt (modAt r.fields 0 sub) 2 sub }
+  | .E | .G => { r with fields := modAt (modAt r.fields 1 (renameOriented a b)) 2 (renameOriented a b) }
+  | .F => { r with fields := modAt r.fields 0 sub }
+  | .P => { r with fields := modAt r.fields 1 (fun s => ",".intercalate ((splitStr ',' s).map (renameOriented a b))) }
+  | .O => { r with fields := modAt r.fields 1 (fun s => " ".intercalate ((splitStr ' ' s).map (renameOriented a b))) }
+  | .U => { r with fields := modAt r.fields 1 (fun s => " ".intercalate ((splitStr ' ' s).map sub)) }
   | _ => r
 
 def setName (b : String) (r : Rec) : Rec :=
   match r.rt with
   | .L | .C => { r with fields := r.fields.map (fun t => if t.startsWith "ID:Z:" then "ID:Z:" ++ b else t) }
-  | _ => { r with fields := b :: r.fields.drop 1 }
+  | _ => { r with fields := modAt r.fields 0 (fun _ => b) }
 
 /-- `line.name = b` for the connected line currently called `a` -/
 def rename (st : St) (a b : String) : Except Err St :=
@@ -396,6 +399,7 @@ def rename (st : St) (a b : String) : Except Err St :=
   | none => .error .notFound
   | some i =>
     if a = b then .ok st
+    else if b = "*" then .error .other      -- making a line anonymous is not modelled
     else if hasName st b then .error .notUnique
     else
       let isSeg := (st.lines.getD i default).rt = .S
